@@ -1750,7 +1750,7 @@ class FuncFindLast(ValueFunc):
             s = obj.value
             part = args.getString("part").value
             start = args.getInt("start", len(s) - 1).value
-            return ValueInt(obj.value.rfind(part, 0, start))
+            return ValueInt(obj.value.rfind(part, 0, start + len(part)))
         elif obj.isList():
             env = environment
             if key:
@@ -1758,6 +1758,8 @@ class FuncFindLast(ValueFunc):
             item = args.get("part")
             lst = obj.value
             start = args.getInt("start", len(lst) - 1).value
+            if start > len(lst) - 1:
+                start = len(lst) - 1
             for idx in range(start, -1, -1):
                 elem = lst[idx]
                 if key:
